@@ -29,6 +29,10 @@ const MALFORMED: &[(&str, &str, bool)] = &[
     ("oct-prefix-no-digits-upper", "0O", false),
     ("bin-prefix-no-digits", "0b", false),
     ("bin-prefix-underscore", "0b_", false),
+    ("hex-prefix-underscore", "0x_", false),
+    ("hex-prefix-underscores", "0x__", false),
+    ("oct-prefix-underscore", "0o_", false),
+    ("hex-prefix-underscore-then-nonhex", "0x_g", false),
     ("oct-prefix-no-digits", "0o", false),
     ("hex-prefix-then-nonhex", "0xg", false),
     ("float-exponent-no-digits", "1e", false),
